@@ -207,6 +207,32 @@ theorem babaiStepImpl_eq (k : Nat) (f g q : List Int) (FG : List Int × List Int
   unfold babaiStepImpl babaiStep
   rw [kmul_eq_negacyc k _ _ hq hf, kmul_eq_negacyc k _ _ hq hg]
 
+section
+variable {R : Type} [CommRing R]
+theorem ev_reduceCyc (n : Nat) (hn : 0 < n) (ρ : R) (hρ : ρ ^ n = -1) (p : List Int) : ev (reduceCyc n p) ρ = ev p ρ :=
+  ev_reduceCycGo n hn ρ hρ _ p (by omega)
+
+theorem reduceCyc_length (n : Nat) (p : List Int) : (reduceCyc n p).length = n := reduceCycGo_length n _ _
+
+theorem fieldNormImpl_eq (m : Nat) (hm : 0 < m) (f : List Int) (hf : f.length = 2 * m) :
+    fieldNormImpl (2 * m) f = fieldNorm (2 * m) f := by
+  have hdiv : 2 * m / 2 = m := by omega
+  obtain ⟨le, lo⟩ := evens_odds_length m f hf
+  apply ev_ext m hm _ _ _ (fieldNorm_length m hm f hf)
+  · intro R _ σ hσ
+    unfold fieldNormImpl fieldNorm
+    rw [hdiv, ev_subL _ _ (by rw [reduceCyc_length, reduceCyc_length]), ev_reduceCyc m hm σ hσ, ev_reduceCyc m hm σ hσ,
+      ev_school, ev_school, ev_reduceCyc m hm σ hσ, ev_school,
+      ev_subL _ _ (by rw [negacyc_length m hm _ _ le, mulX_length _ (by rw [negacyc_length m hm _ _ lo]; exact hm),
+        negacyc_length m hm _ _ lo]),
+      ev_negacyc m hm σ hσ _ _ le, ev_mulX _ σ m (negacyc_length m hm _ _ lo) hσ, ev_negacyc m hm σ hσ _ _ lo]
+    simp only [ev_cons, ev_nil]
+    push_cast
+    ring
+  · unfold fieldNormImpl
+    rw [hdiv, subL_length _ _ (by rw [reduceCyc_length, reduceCyc_length]), reduceCyc_length]
+end
+
 /-- NTRUSolve at the level of coefficients: a returned pair satisfies f⋆G − g⋆F = (q, 0, …, 0) in ℤ[X]/(Xⁿ+1) -/
 theorem ntruSolve_exact (ks : Nat → List Int → List Int → List (List Int)) (d : Nat) (f g cF cG : List Int)
     (hf : f.length = 2 ^ d) (hg : g.length = 2 ^ d) (hs : ntruSolve xgcd ks d f g = some (cF, cG)) :
